@@ -62,7 +62,7 @@ func runQuery(dir, name, text string, timeoutMs int) SolveResult {
 	// z3 4.8.12 is unsound on sequences whose elements are datatypes when quantified axioms are present
 	// (it answers unsat on satisfiable formulas; minimal reproduction in DESIGN.md): it is not consulted
 	// for such queries.
-	seqOfData := strings.Contains(text, "(Seq ")
+	seqOfData := usesNativeSeq(text)
 	active := 0
 	for _, s := range solvers {
 		if seqOfData && s.Name == "z3-4.8.12" {
@@ -168,4 +168,17 @@ func hashStr(s string) uint32 {
 		h *= 16777619
 	}
 	return h
+}
+
+// usesNativeSeq: does the query (comments aside) mention the SMT sequence theory?
+func usesNativeSeq(text string) bool {
+	for _, l := range strings.Split(text, "\n") {
+		if strings.HasPrefix(l, ";") {
+			continue
+		}
+		if strings.Contains(l, "(Seq ") {
+			return true
+		}
+	}
+	return false
 }
